@@ -270,6 +270,10 @@ def m_from_residual(ex, callee, args):
 @model(r'^<std::option::Option<.*> as Clone>::clone$|^<.* as Clone>::clone$')
 def m_clone(ex, callee, args):
     qt = callee[1:callee.index(' as Clone')]
+    v0 = deref_all(args[0])
+    if isinstance(v0, SymEnum):
+        # derived Clone is a structural copy; symbolic enum values are immutable here
+        return v0
     f = ex.prog.resolve_call(callee)
     if f is not None:
         return ex.call_mir(f, args)
@@ -894,3 +898,13 @@ def m_chars(ex, callee, args):
     if h is not None:
         return h(s)
     raise Unsupported('chars() of a symbolic string')
+
+
+@model(r'^<(u64|usize|u32) as TryFrom<(i64|isize|i32)>>::try_from$')
+def m_try_from_signed(ex, callee, args):
+    ty = callee[1:callee.index(' as ')]
+    a = args[0]
+    nonneg = ex.int_binop('Ge', a, mk_int(0, a.ty))
+    if ex.branch(nonneg):
+        return ok(ex.do_cast(a, ty, 'IntToInt'))
+    return err(Opaque('TryFromIntError'))
